@@ -68,8 +68,10 @@ def small_verbatim():
 
 # ----------------------------------------------------------------------------------------------- \verb
 def gen_verb(rng):
-    delim = rng.choice('|+!/=:;.,?@"\'`-')
+    delim = rng.choice('|+!/=:;.,?@"\'`-#$&~^_')
     body = ''.join(rng.choice([c for c in PRINTABLE if c != delim]) for _ in range(rng.randrange(0, 9)))
+    if delim == '^' and body == '':
+        body = 'k'          # \\verb^^ : the two carets are a ^^-notation for the tokenizer's look-ahead (C01), not two delimiters
     return dict(delim=delim, body=body, star=rng.random() < 0.3)
 
 
